@@ -58,6 +58,32 @@ def gen_tie_product(rng, cid):
     return p
 
 
+def gen_manyvars(rng, cid):
+    """sum of v_i * g_i(x, y, z) over 4..9 free variables: the Jacobian evaluator packs three variables per
+    array slot, so the gradient of the 4th, 5th, ... variable lives in slots 1, 2, ... whose X / Y / Z rows
+    must hold the query point, not what an earlier batch left there"""
+    p = exprlib.Prog(cid)
+    ax = [p.emit("x", "axis"), p.emit("y", "axis"), p.emit("z", "axis")]
+    n = rng.randint(4, 9)
+    vs = []
+    for _ in range(n):
+        vs.append(p.emit("var", "var")); p.nvars += 1
+    total = None
+    for i, v in enumerate(vs):
+        g = ax[rng.randrange(3)]
+        for _ in range(rng.randint(0, 2)):
+            c = p.emit(f"const {f2h(rng.choice([1.0, 2.0, 0.5, -1.0, 3.0, float(i + 1)]))}", "const")
+            g = p.emit(f"bin {rng.choice(['OP_ADD', 'OP_MUL', 'OP_SUB'])} {p.emit(f'bin OP_MUL {c} {ax[rng.randrange(3)]}', 'tree')} {g}", "tree")
+        if rng.random() < 0.3:
+            g = p.emit(f"un {rng.choice(['OP_SIN', 'OP_COS', 'OP_SQUARE'])} {g}", "tree")
+        t = p.emit(f"bin OP_MUL {v} {g}", "tree")
+        total = t if total is None else p.emit(f"bin OP_ADD {total} {t}", "tree")
+    if rng.random() < 0.3:
+        total = p.emit(f"bin {rng.choice(['OP_MIN', 'OP_MAX'])} {total} {ax[rng.randrange(3)]}", "tree")
+    p.root = total
+    return p
+
+
 def gen_history(rng, p, nq):
     toks = []
     kinds = set()
@@ -122,7 +148,9 @@ def run(replay=None):
     progs = []
     for k in range(500 if quick else 6000):
         r = ck.rng.random()
-        if r < 0.15:
+        if r < 0.08:
+            p = gen_manyvars(ck.rng, f"h{k}")
+        elif r < 0.2:
             p = gen_tie_product(ck.rng, f"h{k}")
         elif r < 0.55:
             p = gen_csg(ck.rng, f"h{k}", ck.rng.randint(2, 6))
@@ -178,7 +206,8 @@ def run(replay=None):
     ck.coverage.update(stats)
     ck.coverage["evaluations"] = stats["queries"]
     ck.coverage["distinct_nontrivial"] = nontriv
-    ck.coverage["rule"] = ("CSG (optionally wrapped in sqrt) and random expressions with free variables x histories of 5..30 (thorough: 120) "
+    ck.coverage["rule"] = ("CSG (optionally wrapped in sqrt), tie x axis products, sums of variable x position terms over 4..9 variables, and random "
+                           "expressions with free variables x histories of 5..30 (thorough: 120) "
                            "queries; batch sizes {1,2,3,15,16,17,31,32,33,64,255,256}; points incl. exact min/max ties; "
                            "non-trivial = >= 3 kinds of query and at least one push or variable update in the history")
     ck.coverage["samples"] = samples
